@@ -23,17 +23,25 @@ CLAIMS = {
         "DESIGN.md section 3, C01"),
     "C03": (
         "abstract interpretation in the domain of homogeneity degrees (speed, charge_one, charge_two) over Python potentials "
-        "(through MRO, attribute sub-potentials) and the cffi C functions (clang AST); permutation-table check; linear-form "
-        "zero-sum check of the multi-body derivative tuple",
+        "(through MRO, attribute sub-potentials) and the cffi C functions (clang AST); units-of-measure inference (linear "
+        "constraints over exponent vectors with coefficients in Q(power), incremental Gaussian elimination) over the Python "
+        "and C potentials linked at the cffi call sites; permutation-table check; linear-form zero-sum check of the "
+        "multi-body derivative tuple",
         "Decides for all inputs the clause 'scaled linearly by speed and charge product' (derivative has degree exactly 1 in "
         "speed and each charge for all 7 concrete potentials with a derivative, displacement degree -1 in speed), that the "
         "axis permutation feeding the C x-derivative is the cyclic one for the direction of motion at every call, and that the "
-        "per-unit derivatives of the multi-body potential sum to zero identically (translation invariance). Equality of the "
+        "per-unit derivatives of the multi-body potential sum to zero identically (translation invariance); and that all "
+        "potential code (about 730 constraints, Python and C, including the Ewald constructor / copy and the periodic 1/r "
+        "displacement) is dimensionally consistent with the API contract, with exponents symbolic in the configured power "
+        "(this catches wrong exponents, norm vs squared norm, a dropped box length or speed, a potential added to a length, "
+        "a constructor fed a parameter of the wrong dimension). Dimensionally consistent errors (a wrong dimensionless factor, "
+        "a sign), hence equality of the "
         "reported rate with dE/dx, convergence / alpha-independence / periodicity / oddness of the lattice sum are numerical "
         "and not decided.",
         "Trusted: the degree algebra of jfsa/degree.py (sqrt halves, transcendental functions need degree 0, zero / infinity "
-        "literals are polymorphic); parameter roles by name (charge_one, charge_two, velocity), as the repository's own "
-        "signature inspection does.",
+        "literals are polymorphic); parameter roles by name (charge_one, charge_two, velocity, *separation*, "
+        "potential_change, *length*), as the repository's own signature inspection does; numeric literals other than 0 are "
+        "dimensionless; the frozen dimension contract in jfsa/dims_front.py.",
         "DESIGN.md section 3, C03"),
     "C18": (
         "dataflow / structural rules on the alias-table construction (mass moved = mass removed, refiling, flushing), the "
